@@ -1,3 +1,4 @@
+import MdsVerif.GenFact
 import MdsVerif.Model.Mstr
 import MdsVerif.Spec.Bytes
 /-!
@@ -25,8 +26,7 @@ theorem trunc_def (s : MdsVerif.Model.Mstr.Bytes) (n : Int) :
         | .index => .index
         | .bounds => .bounds := by
   unfold MdsVerif.Model.Mstr.trunc
-  have e : (MdsVerif.Gen.Small.truncWhole n s.length = true) = (n ≥ s.length) := by
-    unfold MdsVerif.Gen.Small.truncWhole; rw [decide_eq_true_eq]
+  have e : (MdsVerif.Gen.Small.truncWhole n s.length = true) = (n ≥ s.length) := by gen_fact MdsVerif.Gen.Small.truncWhole
   simp only [e]; rfl
 open MdsVerif.Spec.Bytes (charLen validF validUTF8 cont inR second3 second4)
 
